@@ -109,7 +109,8 @@ def build(tier, seed):
     for n, s in SP.items():
         if 'order' in s:
             o = Ob('C01.order.' + n, u, None, 'h_order_' + n, 'CMP-ORDER for the table of the %s constructor: reflexive on the built element, antisymmetric, transitive (three symbolic requests)' % s['what'],
-                   kind='K3', replay='C01', timeout=1200, flags=['--unwind', '65'], objbits=12 if (s.get('sequences') or s.get('transfers')) else None)
+                   kind='K3', replay='C01', timeout=1200, flags=['--unwind', '65', '--sat-solver', 'cadical'],      # measured: cadical 145 s vs minisat 225 s on the transfer-aware comparators
+                   objbits=12 if (s.get('sequences') or s.get('transfers')) else None)
             o.gen = gen
             obs.append(o)
     meta = dict(sweep_family='C01', functions_under_contract=sorted(names),
